@@ -17,7 +17,7 @@ for sid in sorted(os.listdir(os.path.join(V, 'seeded'))):
     rows.append((sid, m['breaks_property'], ', '.join(m.get('detected_by', [])) or '—', '; '.join(keys)[:160], (m.get('disposition') or '')[:200]))
 with open(os.path.join(V, 'seeded', 'INDEX.md'), 'w') as f:
     f.write('# Seeded breaking changes (written by independent sub-agents; confirmed by tools/seeded_confirm.py)\n\n')
-    f.write('Suffix A/B: first wave (two per property); H: second wave ("escape a randomized differential harness"); X: third wave ("escape the strengthened harness"); Y: fourth wave (option to answer "no escaping change exists"); Z, Z2: fifth wave and W, W2: sixth and V, V2: seventh wave; U, U2: eighth and T, T2: ninth and S, S2: tenth wave ("escape", with a prose description of the harness); R, R2: eleventh, Q, Q2: twelfth and P, P2: thirteenth wave (agents got all statements and one THEME - a kind of change - instead of one property); N, N2: fourteenth wave (one agent per property, property text only, two prescribed kinds of trigger, a list of worn-out mechanisms excluded) (property text only, prescribed kinds of trigger, earlier ideas listed as taken).\n\n')
+    f.write('Suffix A/B: first wave (two per property); H: second wave ("escape a randomized differential harness"); X: third wave ("escape the strengthened harness"); Y: fourth wave (option to answer "no escaping change exists"); Z, Z2: fifth wave and W, W2: sixth and V, V2: seventh wave; U, U2: eighth and T, T2: ninth and S, S2: tenth wave ("escape", with a prose description of the harness); R, R2: eleventh, Q, Q2: twelfth and P, P2: thirteenth wave (agents got all statements and one THEME - a kind of change - instead of one property); N, N2: fourteenth and M, M2: fifteenth wave (one agent per property, property text only, two prescribed kinds of trigger, a list of worn-out mechanisms excluded) (property text only, prescribed kinds of trigger, earlier ideas listed as taken).\n\n')
     f.write('| id | property | detected by (checks run: designated + those that caught it before) | first violation keys | disposition |\n|---|---|---|---|---|\n')
     for r in rows:
         f.write('| %s | %s | %s | `%s` | %s |\n' % r)
